@@ -40,6 +40,9 @@ type C05Params struct {
 	Faults []CorruptOp `json:"faults"`
 	// Raw overrides everything: the exact hostile bytes (hex-free: stored as ints)
 	Raw []int `json:"raw,omitempty"`
+	// BodyFaults: positions are not biased towards headers (faults land in the
+	// entropy-coded body)
+	BodyFaults bool `json:"body_faults,omitempty"`
 }
 
 type propC05 struct{}
@@ -66,6 +69,16 @@ func (propC05) Gen(seed uint64, tier string, idx int) any {
 		p.Base = "still"
 		op := GenStillOp(r, 1, 40, false)
 		op.Kind = "enc"
+		if r.Pct(12) {
+			// a narrow lossless picture with repeats (backward references with 2-D
+			// distance codes near the row ends); faults go into the entropy-coded body
+			op.Img = GenImgSpec(r, 1, 40, 1)
+			op.Img.W = r.Range(1, 7)
+			op.Img.Family = r.PickS("pal", "text", "flat", "hgrad")
+			op.Img.Runs, op.Img.Colors, op.Img.Type = true, r.Range(2, 6), "nrgba"
+			op.Opt = GenLosslessOpts(r, 0)
+			p.BodyFaults = true
+		}
 		if r.Pct(1) {
 			// a large picture of statistically different regions (many prefix-code groups,
 			// many token pages)
@@ -85,8 +98,10 @@ func (propC05) Gen(seed uint64, tier string, idx int) any {
 		p.Base = "mux"
 		m := GenMuxSpec(r, 12)
 		p.Mux = &m
-	case v < 88:
+	case v < 86:
 		p.Base = "random"
+	case v < 91:
+		p.Base = "crafted"
 	default:
 		p.Base = "header"
 	}
@@ -99,8 +114,15 @@ func (propC05) Gen(seed uint64, tier string, idx int) any {
 	if r.Pct(12) {
 		nf = 0 // the stored file as it is: every entry point must also survive valid input
 	}
+	if p.BodyFaults {
+		nf = r.Range(1, 3)
+	}
 	for i := 0; i < nf; i++ {
 		c := CorruptOp{Kind: corruptKinds[r.Intn(len(corruptKinds))], Pos: r.Intn(1000), Len: 1 + r.Intn(24), Val: uint32(r.Next())}
+		if p.BodyFaults {
+			c.Kind = r.PickS("bitflip", "bitflip", "byte")
+			c.Pos = 250 + r.Intn(750) // past the container and bitstream headers
+		}
 		if c.Kind == "length" {
 			c.Val = sizeBoundary[r.Intn(len(sizeBoundary))]
 			if r.Pct(30) {
@@ -185,7 +207,7 @@ func chunkSizeFields(data []byte) []int {
 	return out
 }
 
-func applyCorruption(data []byte, other []byte, faults []CorruptOp, seed uint64) []byte {
+func applyCorruption(data []byte, other []byte, faults []CorruptOp, seed uint64, bodyOnly bool) []byte {
 	r := NewRNG(seed)
 	d := append([]byte{}, data...)
 	for _, c := range faults {
@@ -196,7 +218,7 @@ func applyCorruption(data []byte, other []byte, faults []CorruptOp, seed uint64)
 		pos := c.Pos * len(d) / 1000
 		if c.Abs {
 			pos = c.Pos
-		} else if r.Pct(55) {
+		} else if !bodyOnly && r.Pct(55) {
 			if io := interestingOffsets(data); len(io) > 0 {
 				pos = io[r.Intn(len(io))]
 			}
@@ -431,11 +453,13 @@ func c05Bytes(p *C05Params) []byte {
 		return d
 	case p.Base == "header":
 		return hostileHeader(r)
+	case p.Base == "crafted":
+		return craftVP8L(r)
 	}
 	if base == nil {
 		return nil
 	}
-	return applyCorruption(base, other, p.Faults, p.Seed)
+	return applyCorruption(base, other, p.Faults, p.Seed, p.BodyFaults)
 }
 
 func c05Dump(args []string) int {
@@ -551,8 +575,10 @@ func (propC05) Execute(pp any, x *X) *Violation {
 		measure("Decode", func() string {
 			img, err := webp.Decode(NewSimReader(data, ReadPlan{Seed: p.Seed, Mode: "mixed", ErrAt: -1}))
 			if err == nil {
+				x.Count("decode_accepted_base_"+p.Base, 1)
 				return wellFormed(img)
 			}
+			x.Count("decode_rejected_base_"+p.Base, 1)
 			return ""
 		})
 		measure("image.Decode", func() string {
